@@ -25,7 +25,8 @@ STATE_MEASURE = "distinct (feature, present emodulus keys, temp feature present,
 PROBES = ["read_cached_then_config_changed", "key_deleted_after_read", "emodulus_case_A", "emodulus_case_B", "emodulus_case_C",
           "viscosity_changed_while_temperature_present", "temp_feature_replaced", "plugin_read", "unavailable_read_raises",
           "child_after_refresh", "file_backed", "scenario_switch", "ml_score_replaced", "temperature_zero", "grandchild_backing",
-          "temp_feature_tail_changed", "temp_set_through_child", "child_read_without_explicit_refresh"]
+          "temp_feature_tail_changed", "temp_set_through_child", "child_read_without_explicit_refresh",
+          "temp_input_the_recipe_refuses", "computation_refused_input", "setting_changed_back"]
 COMPONENTS = {"real": ["dclab RTDCBase.__getitem__/__contains__, AncillaryFeature (hash, availability, priorities)",
                        "af_emodulus/af_basic/af_fl_max_ctc/af_image_contour/af_ml_class, PlugInFeature, temporary features",
                        "RTDC_Dict / RTDC_HDF5 / RTDC_Hierarchy"],
@@ -157,9 +158,23 @@ class World:
     def gen_op(self, r):
         # read-edit-read patterns are what exposes a stale cache: after an edit, usually read a feature
         # that depends on what was edited
+        pend = getattr(self, "pending_reads", [])
+        if pend:
+            return {"k": "read", "feat": pend.pop(0)}
         if self.last_edit_fresh and r.random() < 0.6:
             self.last_edit_fresh = False
-            return {"k": "read", "feat": r.choice(self.related(self.last_edit))}
+            rel = self.related(self.last_edit)
+            if r.random() < 0.35:
+                # all the features that share these inputs, one after the other
+                self.pending_reads = list(dict.fromkeys(rel))[1:]
+                return {"k": "read", "feat": list(dict.fromkeys(rel))[0]}
+            return {"k": "read", "feat": r.choice(rel)}
+        hist = getattr(self, "set_hist", {})
+        back = sorted(k_ for k_, v_ in hist.items() if len(v_) >= 2 and v_[-1] != v_[-2])
+        if back and r.random() < 0.08:
+            # a setting is changed back to the value it had before
+            sec, key = r.choice(back)
+            return {"k": "set", "sec": sec, "key": key, "val": hist[(sec, key)][-2]}
         if self.k.get("big") and r.random() < 0.6:
             # large in-memory arrays: replace the temporary input (often only in its tail) between reads of what is computed from it
             if "tmp_c06" in self.temps and r.random() < 0.55:
@@ -207,7 +222,8 @@ class World:
             return {"k": "del", "sec": sec, "key": key}
         if x < 0.52:
             names = ["tmp_c06", "tmp_c06"] + ([] if self.k.get("ml_innate", True) else ["ml_score_abc", "ml_score_xyz", "ml_score_abc"])
-            return {"k": "temp", "dseed": r.randrange(1 << 30), "name": r.choice(names), "via": r.choice(["base", "base", "child", "child", "mid"])}
+            return {"k": "temp", "dseed": r.randrange(1 << 30), "name": r.choice(names), "via": r.choice(["base", "base", "child", "child", "mid"]),
+                    "bad": r.random() < 0.15}
         if x < 0.60 and self.child is not None:
             return {"k": "refresh"}
         if x < 0.70:
@@ -282,6 +298,12 @@ class World:
             if op["key"] == "emodulus viscosity" and "emodulus temperature" in calc:
                 ctx.probe("viscosity_changed_while_temperature_present")
             cfg[op["sec"]][op["key"]] = op["val"]
+            if not hasattr(self, "set_hist"):
+                self.set_hist = {}
+            h_ = self.set_hist.setdefault((op["sec"], op["key"]), [])
+            if len(h_) >= 2 and h_[-2] == op["val"] and h_[-1] != op["val"]:
+                ctx.probe("setting_changed_back")
+            h_.append(op["val"])
             ctx.log("a", f"set {op['sec']}:{op['key']}", str(op["val"]))
             if self.read_before:
                 ctx.probe("read_cached_then_config_changed")
@@ -302,6 +324,10 @@ class World:
                 return
             lo, hi = (1, 2) if name == "tmp_c06" else (0.01, 0.99)
             vals = seeds.np_rng(op["dseed"], "tmp").uniform(lo, hi, size=self.n)
+            if name == "tmp_c06" and op.get("bad"):
+                # input the plugin recipe refuses (its computation raises ValueError) until the values are replaced again
+                vals[op["dseed"] % self.n] = -1.0
+                ctx.probe("temp_input_the_recipe_refuses")
             if name in self.temps and (op["dseed"] % 3 == 0 or op.get("tail")) and self.n > 4:
                 # only the last few events change (a block-wise identifier must still see it)
                 keep = self.temps[name].copy()
@@ -410,11 +436,24 @@ class World:
                     return True, np.asarray(obj[:])
                 except KeyError:
                     return False, None
+                except ValueError:
+                    if feat in ("c06_a", "c06_b") and "tmp_c06" in self.temps and np.any(self.temps["tmp_c06"] < 0):
+                        # the recipe refuses the current input: legitimate on both datasets
+                        return "refused", None
+                    raise
             with ctx.sut("C06.read", sig=sig):
                 ok, val = rd(ds)
             with ctx.sut("C06.read_fresh", sig=sig):
                 ok_f, val_f = rd(fr)
         ctx.checked()
+        if ok == "refused" or ok_f == "refused":
+            ctx.probe("computation_refused_input")
+            if ok != ok_f:
+                ctx.violation("C06.value.fresh", f"reading {feat} gives {ok} on the long-lived dataset but {ok_f} on a fresh one "
+                                                 f"(the recipe refuses negative tmp_c06)", sig=sig)
+            self.read_before.add(feat)
+            ctx.log("r", f"read {feat}", "refused")
+            return
         if ok != avail:
             ctx.violation("C06.availability.read", f"'{feat} in ds' is {avail} but reading {'succeeds' if ok else 'raises KeyError'} "
                                                    f"(last edit: {self.last_edit}); calculation={dict(calc)}", sig=sig)
